@@ -121,6 +121,80 @@ func C15(c *Ctx) {
 			}
 		}
 	})
+	// a spec source is reported only once it is in effect: no error return is reachable after the record
+	{
+		okLate, whyLate := true, ""
+		nrec := 0
+		ssau.Instrs(setM, func(in ssa.Instruction) {
+			st, ok := in.(*ssa.Store)
+			if !ok || !isChangeField(st.Addr, "SpecSrc") {
+				return
+			}
+			nrec++
+			after := flow.ReachableFrom(st.Block(), nil)
+			after[st.Block()] = true
+			for b := range after {
+				ret, isRet := b.Instrs[len(b.Instrs)-1].(*ssa.Return)
+				if !isRet || len(ret.Results) == 0 {
+					continue
+				}
+				if b == st.Block() {
+					// same block: the return follows the record; only its value matters
+				}
+				if !provablyNil(ret.Results[len(ret.Results)-1], b) {
+					okLate, whyLate = false, "SetMachine can still fail ("+c.pos(ret)+") after it recorded the new spec source ("+c.pos(st)+"): the rejected source is reported and stored although the live machine keeps its old spec"
+				}
+			}
+		})
+		c.R.Check(okLate && nrec > 0, "C15-R1", "SetMachine: a spec source is reported only when it is in effect", c.P.Pos(setM.Pos()), "no error return is reachable after the record of Changed.SpecSrc", whyLate)
+	}
+	// a machine that exists again is not reported as deleted: SetMachine withdraws a pending deletion
+	{
+		okUndel := false
+		ssau.Instrs(setM, func(in ssa.Instruction) {
+			st, ok := in.(*ssa.Store)
+			if !ok || !ssau.IsField(st.Addr, prog.Abs("sio"), "Changed", "Deleted") {
+				return
+			}
+			cst, isC := st.Val.(*ssa.Const)
+			if !isC || cst.Value == nil || cst.Value.String() != "false" {
+				return
+			}
+			// on every path through SetMachine on which a change record for the machine is pending
+			pending := false
+			for _, f := range flow.FactsAt(st.Block()) {
+				if ex, isEx := f.Cond.(*ssa.Extract); isEx && ex.Index == 1 && f.True {
+					if lk, isLk := ex.Tuple.(*ssa.Lookup); isLk {
+						if _, is := ssau.LoadOfField(lk.X, prog.Abs("sio"), "Crew", "changed"); is {
+							pending = true
+						}
+					}
+				}
+			}
+			_, _, base, _ := ssau.FieldOf(st.Addr)
+			if cl, isCall := base.(*ssa.Call); isCall && cl.Common().StaticCallee() == change {
+				pending = true // c.change(mid).Deleted = false
+			}
+			if pending && !flow.InCycle(st.Block()) {
+				// not behind any other condition
+				extra := 0
+				for _, f := range flow.FactsAt(st.Block()) {
+					if ex, isEx := f.Cond.(*ssa.Extract); isEx && ex.Index == 1 {
+						if lk, isLk := ex.Tuple.(*ssa.Lookup); isLk {
+							if _, is := ssau.LoadOfField(lk.X, prog.Abs("sio"), "Crew", "changed"); is {
+								continue
+							}
+						}
+					}
+					extra++
+				}
+				if extra == 0 {
+					okUndel = true
+				}
+			}
+		})
+		c.R.Check(okUndel, "C15-R1", "SetMachine: a pending deletion of the machine is withdrawn", c.P.Pos(setM.Pos()), "Changed.Deleted = false for a pending change record, unconditionally", "a machine deleted and re-created before the changes are collected is reported as deleted only: the store loses a machine that is live")
+	}
 	c.R.Check(recState && recSrc, "C15-R1", "SetMachine: given state and spec source are reported", c.P.Pos(setM.Pos()), "Changed.State and Changed.SpecSrc recorded", "SetMachine does not report the state / spec source it was given")
 	c.R.Check(applyNew && applyExisting, "C15-R1", "SetMachine: given state is applied to new and to existing machines", c.P.Pos(setM.Pos()), "Machine.State assigned for a new machine and for an existing one", fmt.Sprintf("a reported state is not applied (new machine=%v, existing machine=%v)", applyNew, applyExisting))
 	// the spec source is applied (m.SpecSource / m.Specter set from ResolveSpecSource) when given
